@@ -1,7 +1,7 @@
 \* focused behaviours for the virtual-time natmap harness (datagram arriving inside WriteTo of a later DNS query): T = 2 units, DNS timeout = 4 units (one unit = 17 s / 4)
 SPECIFICATION GenSpec
 CONSTANTS
-  Clients = {1}
+  Clients = {1, 2}
   IPOf <- GenIPOf
   Keys = {1}
   InitList <- GenInitList
@@ -14,7 +14,7 @@ CONSTANTS
   DisarmFirst = TRUE
   Fam <- GenFam
   DgAlpha <- GenDgVirtMid
-  RpAlpha <- NoMid
+  RpAlpha <- GenRpVirtMid
   MidAlpha <- GenMidVirtMid
   Sync = TRUE
   T = 2
@@ -27,6 +27,6 @@ CONSTANTS
   Slack = 0
   Bound = 0
   ZonedPanics = FALSE
-  GenLen = 8
+  GenLen = 10
 INVARIANTS DumpInv
 CHECK_DEADLOCK FALSE
